@@ -9,13 +9,13 @@ import (
 // Msg is one CEDAR message seen on the wire between the two endpoints, in the
 // global order in which it was handed to the connection.
 type Msg struct {
-	Dir    string `json:"dir"`            // "c2s" | "s2c"
-	Shape  string `json:"shape"`          // "int" (one integer) | "rec" (status + length + bytes) | "other"
-	Status int    `json:"status"`         // first integer
-	Len    int    `json:"len"`            // announced length (shape rec)
-	Data   []byte `json:"-"`              // the bytes (shape rec)
-	TLS    string `json:"tls,omitempty"`  // content class of the bytes (see classify)
-	Raw    int    `json:"raw"`            // payload size of the whole message
+	Dir    string `json:"dir"`           // "c2s" | "s2c"
+	Shape  string `json:"shape"`         // "int" (one integer) | "rec" (status + length + bytes) | "other"
+	Status int    `json:"status"`        // first integer
+	Len    int    `json:"len"`           // announced length (shape rec)
+	Data   []byte `json:"-"`             // the bytes (shape rec)
+	TLS    string `json:"tls,omitempty"` // content class of the bytes (see classify)
+	Raw    int    `json:"raw"`           // payload size of the whole message
 	Frames int    `json:"frames"`
 }
 
@@ -29,6 +29,22 @@ type Recorder struct {
 	part [2][]byte // payload of the unfinished message per direction
 	nfr  [2]int
 	msgs []Msg
+	// consumption: wire offset at which each message of a direction ends, bytes
+	// the receiver has read so far, messages it has consumed completely
+	off  [2]int
+	ends [2][]int
+	idx  [2][]int // index into msgs
+	got  [2]int
+	nrcv [2]int
+	evs  []Event
+}
+
+// Event is one observed step of the connection: a role handed a complete
+// message to the connection ("send"), or consumed one completely ("recv").
+type Event struct {
+	Ev   string `json:"ev"`
+	Role string `json:"role"` // "c" | "s"
+	Msg  Msg    `json:"msg"`
 }
 
 func (r *Recorder) add(dir int, p []byte) {
@@ -48,8 +64,13 @@ func (r *Recorder) add(dir int, p []byte) {
 		r.nfr[dir]++
 		end := b[0]&1 == 1
 		r.buf[dir] = append([]byte(nil), b[5+n:]...)
+		r.off[dir] += 5 + n
 		if end {
-			r.msgs = append(r.msgs, decode(dir, r.part[dir], r.nfr[dir]))
+			m := decode(dir, r.part[dir], r.nfr[dir])
+			r.msgs = append(r.msgs, m)
+			r.ends[dir] = append(r.ends[dir], r.off[dir])
+			r.idx[dir] = append(r.idx[dir], len(r.msgs)-1)
+			r.evs = append(r.evs, Event{Ev: "send", Role: [2]string{"c", "s"}[dir], Msg: m})
 			r.part[dir], r.nfr[dir] = nil, 0
 		}
 	}
@@ -112,6 +133,32 @@ func classify(b []byte) string {
 	return out
 }
 
+// consumed notes that the receiver of direction dir has read n more bytes.
+func (r *Recorder) consumed(dir, n int) {
+	r.mu.Lock()
+	defer r.mu.Unlock()
+	r.got[dir] += n
+	for r.nrcv[dir] < len(r.ends[dir]) && r.ends[dir][r.nrcv[dir]] <= r.got[dir] {
+		m := r.msgs[r.idx[dir][r.nrcv[dir]]]
+		r.nrcv[dir]++
+		r.evs = append(r.evs, Event{Ev: "recv", Role: [2]string{"s", "c"}[dir], Msg: m})
+	}
+}
+
+// Events returns the send / recv events in the order they were observed.
+func (r *Recorder) Events() []Event {
+	r.mu.Lock()
+	defer r.mu.Unlock()
+	return append([]Event(nil), r.evs...)
+}
+
+// Unread returns how many complete messages of each direction were never consumed.
+func (r *Recorder) Unread() (c2s, s2c int) {
+	r.mu.Lock()
+	defer r.mu.Unlock()
+	return len(r.ends[0]) - r.nrcv[0], len(r.ends[1]) - r.nrcv[1]
+}
+
 // Messages returns what was recorded so far.
 func (r *Recorder) Messages() []Msg {
 	r.mu.Lock()
@@ -135,6 +182,14 @@ type tapConn struct {
 func (t *tapConn) Write(p []byte) (int, error) {
 	t.rec.add(t.dir, p)
 	return t.Conn.Write(p)
+}
+
+func (t *tapConn) Read(p []byte) (int, error) {
+	n, err := t.Conn.Read(p)
+	if n > 0 {
+		t.rec.consumed(1-t.dir, n)
+	}
+	return n, err
 }
 
 // Tap wraps the two ends of a connection; dir 0 = the client's writes.
